@@ -359,6 +359,12 @@ func c13RestartDirected() []*sim.Scn {
 			Ops: []sim.Op{{K: "run", A: 5000}, {K: "kill", A: 0}, {K: "run", A: 1000}, {K: "start", A: 0}, {K: "run", A: 3000}}},
 		{Cfg: map[string]int64{"restart": 1, "nfull": 0, "bt": 1000, "dat": 1000, "dalat": 5, "maxpending": 3, "repeat": 8},
 			Ops: []sim.Op{{K: "start", A: 0}, {K: "kill", A: 0}, {K: "start", A: 2}, {K: "tx", B: 1}, {K: "run", A: 5281}, {K: "stop", A: 1}, {K: "kill", A: 0}, {K: "tx", B: 2}, {K: "tx", B: 1}}},
+		// the sequencer is killed before its P2P stores were first flushed and comes back after more than a block
+		// time, with slow goroutines: what seeds the empty stores and the first publication are due at the same instant
+		{Cfg: map[string]int64{"restart": 1, "nfull": 0, "bt": 500, "dat": 1000, "eager": 1, "repeat": 8, "readlat": 3},
+			Ops: []sim.Op{{K: "run", A: 1200}, {K: "kill", A: 0}, {K: "run", A: 2000}, {K: "start", A: 0}, {K: "run", A: 4000}}},
+		{Cfg: map[string]int64{"restart": 1, "nfull": 1, "bt": 250, "dat": 1000, "repeat": 8, "readlat": 1},
+			Ops: []sim.Op{{K: "run", A: 700}, {K: "kill", A: 0}, {K: "run", A: 1500}, {K: "start", A: 0}, {K: "run", A: 4000}}},
 	}
 }
 
